@@ -67,6 +67,9 @@ cdef inline int _write_utf8(Writer* writer, Py_UCS4 symbol):
         if _write_byte(writer, <uint8_t>(0xc0 | (utf >> 6))) < 0:
             return -1
         return _write_byte(writer,  <uint8_t>(0x80 | (utf & 0x3f)))
+    elif 0xDC80 <= utf <= 0xDCFF:
+        # surrogateescape: an obs-text byte decoded by the parser
+        return _write_byte(writer, <uint8_t>(utf - 0xDC00))
     elif 0xD800 <= utf <= 0xDFFF:
         # surogate pair, ignored
         return 0
